@@ -233,6 +233,9 @@ def generate(rng, tier, i):
         for p in plans:
             p["mode"] = "controller"
     case["restarts"] = plans
+    # which metric ranks the epochs (for the "best" checkpoint) is independent of the stop / reduce rules,
+    # which always follow the validation metric
+    case["best_is_train"] = rng.random() < 0.35
     return case
 
 
@@ -249,12 +252,12 @@ def _guard(mon, name, fn):
     return mon.lib(name, run)
 
 
-def _new_controller(mon, T, case, root):
+def _new_controller(mon, T, case, root, entries=None):
     params = G.make_params(T, case["cfg"], keep2=case["keep2"])
     sd = os.path.join(root, "states") if case["state_dir"] else None
     ctrl = _guard(mon, "TrainingStateController", lambda: T.TrainingStateController(
         params, os.path.join(root, "hist.csv"), sd))
-    for name, typ, fmt, vals in case["entries"]:
+    for name, typ, fmt, vals in (case["entries"] if entries is None else entries):
         _guard(mon, "add_entry", lambda: ctrl.add_entry(name, G.TYPES[typ], fmt))
     return ctrl
 
@@ -276,7 +279,7 @@ def _drive(mon, T, case, root, plan, sync=True):
         G.train_to(model, opt, e)
         kw = G.user_kwargs(case, e)
         cont = _guard(mon, "update_for_epoch", lambda: ctrl.update_for_epoch(
-            model, opt, case["train"][e - 1], case["val"][e - 1], **kw))
+            model, opt, case["train"][e - 1], case["val"][e - 1], best_is_train=bool(case.get("best_is_train", False)), **kw))
         rec = {"cont": cont, "lrs": [g["lr"] for g in opt.param_groups], "info": dict(ctrl[e]),
                "ct": _guard(mon, "continue_training", lambda: ctrl.continue_training()),
                "last": ctrl.get_last_epoch()}
@@ -314,6 +317,8 @@ def execute(case, mon):
     mon.cls("lr_exact" if exact else "lr_general")
     if case["groups"] == 2:
         mon.cls("two_groups")
+    if case.get("best_is_train"):
+        mon.cls("best_is_train")
     decisions = 0
     prev_fail = False
     for s, v in zip(steps, case["val"]):
@@ -393,6 +398,19 @@ def _judge(case, mon, T, root, steps, rel, exact):
                       observed_type=type(got).__name__, **det)
         mon.check(r["last"] == e, "last-epoch", observed=r["last"], expected=e)
     mon.check(last_a == n, "history-length", observed=last_a, expected=n)
+    # ---- look-up-only controllers over the same history file that declare the user entries in ANOTHER order, or
+    # only some of them (undeclared columns are ignored): every declared entry comes back with its own value and type
+    if len(case["entries"]) >= 2:
+        for label, ents in (("reversed", list(reversed(case["entries"]))), ("last-only", case["entries"][-1:])):
+            look = _new_controller(mon, T, case, a_root, entries=ents)
+            mon.stat("history_reloaded_with_other_entry_declaration")
+            for e in range(1, n + 1):
+                info = look.get_info(e, {})
+                for name, typ, fmt, vals in ents:
+                    v = vals[e - 1]
+                    got = info.get(name)
+                    mon.check(got == v and type(got) is type(v), "info-reloaded", key=name, observed=got, expected=v,
+                              observed_type=type(got).__name__, declaration=label, epoch=e)
     # ---- an optimizer whose own rate differs from the controller's (never initialised through it): the
     # controller must leave it alone until a reduction happens and must then WRITE the new rate into it
     if cfg["log10_lr"] is not None and abs(lr0 - cfg["opt_lr"]) > 1e-9 * lr0:
